@@ -1112,6 +1112,15 @@ type headerBlock struct {
 	// endStream says the HEADERS frame that opened the block carried
 	// END_STREAM. The stream ends with the block, not with that frame.
 	endStream bool
+	// statusSeen says the block has had its :status. A response's header block
+	// has exactly one (RFC 7540 8.1.2.4).
+	statusSeen bool
+	// trailers says the block follows the response's header block on its
+	// stream, and final that the block being read turned out to be that header
+	// block (its status is not an interim 1xx). readStreamOwned carries both
+	// between the block and the request they belong to.
+	trailers bool
+	final    bool
 }
 
 // open returns the bytes to decode for fr: what the previous frame of the block
@@ -1122,6 +1131,8 @@ func (hb *headerBlock) open(fr *FrameHeader) []byte {
 		hb.fields = 0
 		hb.regularSeen = false
 		hb.endStream = fr.Flags().Has(FlagEndStream)
+		hb.statusSeen = false
+		hb.final = false
 	}
 
 	b := append(hb.carry, fr.Body().(FrameWithHeaders).Headers()...)
@@ -1186,7 +1197,20 @@ func (c *Conn) skipFields(fr *FrameHeader, b []byte, reason error) error {
 func (c *Conn) readStreamOwned(fr *FrameHeader, r *Ctx) error {
 	defer r.release()
 
-	return c.readStream(fr, r.Response)
+	// What a HEADERS frame opens depends on what the request has had so far:
+	// the response's header block, or, after that, its trailers.
+	if fr.Type() == FrameHeaders {
+		c.block.trailers = r.headersDone
+	}
+
+	err := c.readStream(fr, r.Response)
+
+	if c.block.final {
+		c.block.final = false
+		r.headersDone = true
+	}
+
+	return err
 }
 
 func (c *Conn) writeRequest(ctx *Ctx) error {
@@ -1984,14 +2008,26 @@ func (c *Conn) readHeader(fr *FrameHeader, res *fasthttp.Response) error {
 				return c.skipFields(fr, b, errPseudoAfterRegular)
 			}
 
+			// Trailers carry no pseudo-header fields (RFC 7540 8.1.2.1): a
+			// :status there would overwrite the one the response came with.
+			if c.block.trailers {
+				return c.skipFields(fr, b, errPseudoInTrailers)
+			}
+
 			if !bytes.Equal(hf.KeyBytes(), StringStatus) {
 				return c.skipFields(fr, b, fmt.Errorf("invalid response pseudo-header %q", hf.KeyBytes()))
+			}
+
+			if c.block.statusSeen {
+				return c.skipFields(fr, b, errDuplicateStatus)
 			}
 
 			n, err := parseUint(hf.ValueBytes())
 			if err != nil || n < 100 || n > 999 {
 				return c.skipFields(fr, b, errInvalidStatus)
 			}
+
+			c.block.statusSeen = true
 
 			res.SetStatusCode(n)
 
@@ -2020,12 +2056,28 @@ func (c *Conn) readHeader(fr *FrameHeader, res *fasthttp.Response) error {
 		}
 	}
 
+	// A response's header block has to say what the status is; without it the
+	// caller would be handed fasthttp's default, 200, for a message that never
+	// said so. A block with an interim status (1xx) is followed by another.
+	if fr.Flags().Has(FlagEndHeaders) && !c.block.trailers {
+		if !c.block.statusSeen {
+			return errMissingStatus
+		}
+
+		if res.StatusCode() >= 200 {
+			c.block.final = true
+		}
+	}
+
 	return nil
 }
 
 var (
 	errPseudoAfterRegular   = errors.New("pseudo-header field after regular header field")
 	errInvalidStatus        = errors.New("invalid :status pseudo-header")
+	errDuplicateStatus      = errors.New("more than one :status pseudo-header")
+	errMissingStatus        = errors.New("response without a :status pseudo-header")
+	errPseudoInTrailers     = errors.New("pseudo-header field in trailers")
 	errUpperCaseHeader      = errors.New("header field name contains uppercase characters")
 	errConnectionSpecific   = errors.New("connection-specific header field")
 	errInvalidContentLength = errors.New("invalid content-length")
